@@ -22,6 +22,8 @@ EXTENDS Integers, TLC
 
 CONSTANTS S,             \* capacity of sendChan (512 in the code)
           N,             \* relays the peer still wants to send
+          Resets,        \* BOOLEAN: the stalled client's connection is reset in the end (FALSE: it stays open and stalled for ever)
+          Deadline,      \* BOOLEAN: the sender gives the client a bounded time to take a message (SetWriteDeadline before a write)
           Drain          \* how the sender empties sendChan when it stops sending:
                          \*   "cancel"  only when it stops because the context is cancelled, not when a write failed
                          \*   "once"    on every exit, until the queue is seen empty once (deferred loop)
@@ -30,8 +32,9 @@ CONSTANTS S,             \* capacity of sendChan (512 in the code)
 VARIABLES sq,     \* messages in A's sendChan
           spc,    \* A's sender: "idle" | "write" (stuck in a write to the stalled client) | "drain" | "exit"
           sock,   \* A's socket: "stalled" | "reset" | "closed"
-          mpc,    \* A's main loop: "loop" | "push" (blocked in h.send: sync clock / response) | "lock" (RemoveParticipant
-                  \*               waits for the participant lock) | "cancel" | "wait" | "done"
+          mpc,    \* A's main loop: "loop" | "push" (blocked in h.send: sync clock / response) | "close" (inside Conn.Close, which
+                  \*               writes a close frame under the connection's write lock) | "lock" (RemoveParticipant waits
+                  \*               for the participant lock) | "cancel" | "wait" | "done"
           dch,    \* a disconnect request is pending
           ctx,    \* "live" | "cancelled"
           bpc,    \* the peer's main loop: "idle" | "in" (inside Broadcast, read lock held) | "push" (blocked on A's full queue,
@@ -65,6 +68,10 @@ S_WriteFail == /\ spc = "write" /\ sock # "stalled"                   \* the stu
                /\ dch' = TRUE                                         \* h.disconnect(err): non-blocking
                /\ spc' = IF Drain = "cancel" THEN "exit" ELSE "drain"
                /\ UNCHANGED <<sq, sock, mpc, ctx, bpc, member, left>>
+S_Timeout   == /\ spc = "write" /\ sock = "stalled" /\ Deadline         \* the write deadline expires: same exit as a failed write
+               /\ dch' = TRUE
+               /\ spc' = IF Drain = "cancel" THEN "exit" ELSE "drain"
+               /\ UNCHANGED <<sq, sock, mpc, ctx, bpc, member, left>>
 S_CtxDone   == /\ spc = "idle" /\ ctx = "cancelled"
                /\ spc' = "drain" /\ UNCHANGED <<sq, sock, mpc, dch, ctx, bpc, member, left>>
 S_Drain     == /\ spc = "drain" /\ sq > 0                             \* for len(h.sendChan) != 0 { <-h.sendChan }
@@ -74,7 +81,7 @@ S_DrainEnd  == /\ spc = "drain" /\ sq = 0
                /\ spc' = "exit" /\ UNCHANGED <<sq, sock, mpc, dch, ctx, bpc, member, left>>
 
 (* the network *)
-Reset == /\ sock = "stalled" /\ sock' = "reset" /\ UNCHANGED <<sq, spc, mpc, dch, ctx, bpc, member, left>>
+Reset == /\ Resets /\ sock = "stalled" /\ sock' = "reset" /\ UNCHANGED <<sq, spc, mpc, dch, ctx, bpc, member, left>>
 
 (* A's main loop *)
 M_Push    == /\ mpc = "loop" /\ ctx = "live" /\ ~dch                  \* sync clock tick or a response: h.send
@@ -85,8 +92,13 @@ M_Unblock == /\ mpc = "push" /\ sq < S
 M_Idle    == /\ mpc = "loop" /\ ~dch /\ ctx = "live"                  \* idle timer, receive error, handler error: h.disconnect
              /\ dch' = TRUE /\ UNCHANGED <<sq, spc, sock, mpc, ctx, bpc, member, left>>
 M_Disc    == /\ mpc = "loop" /\ dch                                   \* handleDisconnect: Conn.Close, leaveSession ..
-             /\ dch' = FALSE /\ sock' = "closed" /\ mpc' = "lock"
-             /\ UNCHANGED <<sq, spc, ctx, bpc, member, left>>
+             /\ dch' = FALSE /\ mpc' = "close"
+             /\ UNCHANGED <<sq, spc, sock, ctx, bpc, member, left>>
+\* Conn.Close writes a close frame first: it needs the connection's write lock, which a sender stuck in a write holds, and
+\* the frame itself does not fit into the buffers of a client that stopped reading unless the write deadline has passed
+M_Close   == /\ mpc = "close" /\ spc # "write" /\ (sock = "stalled" => Deadline)
+             /\ sock' = "closed" /\ mpc' = "lock"
+             /\ UNCHANGED <<sq, spc, dch, ctx, bpc, member, left>>
 M_Lock    == /\ mpc = "lock" /\ bpc = "idle"                          \* .. RemoveParticipant: needs the lock free of readers
              /\ member' = FALSE /\ mpc' = "cancel" /\ UNCHANGED <<sq, spc, sock, dch, ctx, bpc, left>>
 M_Cancel  == /\ mpc = "cancel" /\ ctx' = "cancelled" /\ mpc' = "wait"
@@ -96,8 +108,8 @@ M_Done    == /\ mpc = "wait" /\ spc = "exit" /\ mpc' = "done"
 
 Finished == mpc = "done" /\ bpc = "idle" /\ left = 0
 
-Next == B_Start \/ B_Send \/ B_Unblock \/ S_Take \/ S_WriteFail \/ S_CtxDone \/ S_Drain \/ S_DrainEnd \/ Reset
-        \/ M_Push \/ M_Unblock \/ M_Idle \/ M_Disc \/ M_Lock \/ M_Cancel \/ M_Done
+Next == B_Start \/ B_Send \/ B_Unblock \/ S_Take \/ S_WriteFail \/ S_Timeout \/ S_CtxDone \/ S_Drain \/ S_DrainEnd \/ Reset
+        \/ M_Push \/ M_Unblock \/ M_Idle \/ M_Disc \/ M_Close \/ M_Lock \/ M_Cancel \/ M_Done
         \/ (Finished /\ UNCHANGED vars)
 
 Spec == Init /\ [][Next]_vars /\ WF_vars(Next) /\ WF_vars(Reset)
